@@ -75,6 +75,8 @@ def verdict(fn):
         return (3 if 'preselect is not supported' in str(e) else 8), None, str(e)
     except (ValueError, AssertionError) as e:
         return 7, None, repr(e)
+    except Exception as e:       # anything else (file not found, unknown format, ...) is not one of the documented answers
+        return 10, None, repr(e)
 
 
 # ---------------------------------------------------------------------------- (g) validation on every open path
@@ -553,20 +555,25 @@ def check_spw_object(ctx, call, style, ops):
     want = [Fraction(call['centre']), bw, call['n'], want_side, bw / call['n'], want_product, want_band]
     got = obj_attrs(w)
     if got != want:
-        ctx.disagree('what=spw_constructor;style=%s;given=%s' % (style, '+'.join(sorted(k for k in call if k not in ('centre', 'cw', 'n')))),
+        names = ['centre_freq', 'bandwidth', 'num_chans', 'sideband', 'channel_width', 'product', 'band']
+        ctx.disagree('what=spw_constructor;wrong=%s' % '+'.join(nm for nm, g, w_ in zip(names, got, want) if g != w_),
                      case, [str(v) for v in got], None,
                      'SpectralWindow(...) attributes differ from the documented constructor (defaults sideband -1, band L, '
                      'product ""; bandwidth wins over channel_width)', spec=[str(v) for v in want])
     # the history on the real objects
     res = []
     cur = w
-    for op in ops:
+    for k, op in enumerate(ops):
         try:
             cur = cur.subrange(op[1], op[2]) if op[0] == 0 else cur.rechannelise(op[1])
             res.append(cur)
         except IndexError:
             res.append(None)
             break
+        except Exception as e:
+            ctx.disagree('what=spw_history;symptom=exception:%s' % type(e).__name__, dict(case, step=k), repr(e)[:200], None,
+                         'a sub-range / re-channelisation raised something else than IndexError')
+            return
     for r in res:
         if r is not None and (str(r.product), str(r.band), int(r.sideband)) != (want_product, want_band, want_side):
             ctx.disagree('what=spw_names_lost', case, [str(r.product), str(r.band), int(r.sideband)], None,
@@ -682,3 +689,34 @@ def check_v4_names(ctx, c17, t, sub_band, sub_product):
             ctx.disagree('what=v4_window_names_tie', case, got, mgot, 'names of the v4 window differ from the model', kind='tie')
     ctx.note_case(('v4names', sub_band, sub_product), sample=None)
     ctx.count('v4_names')
+
+
+# ---------------------------------------------------------------------------- (m) formats without preselect
+
+def check_other_format(ctx):
+    """katdal.open(<HDF5 v3 file>, preselect=...): refused (TypeError) - never a data set that ignores the preselection."""
+    from fixtures import h5
+    tmp = v4.scratch_dir('c17h5')
+    try:
+        whole, _, _ = h5.open_v3(tmp, T=5, F=4)
+        fn = os.path.join(tmp, '1500000000.h5')
+        for pre in (dict(dumps=slice(1, 3)), dict(channels=slice(0, 2)), dict(dumps=slice(0, 2), channels=slice(1, 4)), {}):
+            code, ds, msg = verdict(lambda: katdal.open(fn, centre_freq=1284e6, preselect=pre))
+            case = dict(other_format=True, preselect=repr(pre))
+            if ds is not None:
+                whole.select()
+                whole.select(**pre)
+                if list(ds.shape) != list(whole.shape) or not np.array_equal(ds.timestamps, whole.timestamps):
+                    ctx.disagree('what=other_format_preselect_ignored', case, list(ds.shape), None,
+                                 'a format without preselect support returned a data set that ignores the preselection',
+                                 spec=list(whole.shape))
+            if ctx.model_ok:
+                mo = ctx.model([[171, [1, 2, enc_pre(pre)]]])[0]
+                if mo != code:
+                    ctx.disagree('what=preselect_validation_tie;path=other_file', case, [code, msg[:80]], mo,
+                                 'verdict for a format without preselect differs from the model', kind='tie')
+            ctx.note_case(('other', repr(pre)), sample=None)
+            ctx.count('validation:path_other_real_file')
+            ctx.traces_validated += 1
+    finally:
+        fx6.rmtree(tmp)
